@@ -3,6 +3,8 @@ Props/C17Comm.lean — property C17: `U | V` and `U & V` are commutative (knot v
 -/
 import NurbsVerif.Props.C17
 import NurbsVerif.Proofs.SplitRefine
+import NurbsVerif.Props.C17Refine
+import NurbsVerif.Props.C08Union
 
 namespace NV
 
@@ -52,5 +54,143 @@ theorem C17_union_comm (a b : KV) (hsep : Separated (a.v ++ b.v)) : a.union b = 
           (if a.v.any (· == kn) then a.multSingle kn + max b.deg a.deg - a.deg else 0) :=
     fun kn => Nat.max_comm _ _
   simp only [hm]
+
+/-- **C17: `U & V = V & U`** (no hypothesis at all: the common knots are compared exactly). -/
+theorem C17_inter_comm (a b : KV) : a.inter b = b.inter a := by
+  have hk : isort ((dedup a.knots).filter fun x => b.knots.any (· == x))
+      = isort ((dedup b.knots).filter fun x => a.knots.any (· == x)) := by
+    apply sorted_nodup_ext _ _ (sortedLE_isort _) (sortedLE_isort _)
+      (isort_nodup _ ((dedup_nodup _).sublist List.filter_sublist))
+      (isort_nodup _ ((dedup_nodup _).sublist List.filter_sublist))
+    intro x
+    rw [mem_isort, mem_isort, List.mem_filter, List.mem_filter, mem_dedup, mem_dedup]
+    simp only [List.any_eq_true, beq_iff_eq]
+    constructor
+    · rintro ⟨h1, y, hy, rfl⟩; exact ⟨hy, y, h1, rfl⟩
+    · rintro ⟨h1, y, hy, rfl⟩; exact ⟨hy, y, h1, rfl⟩
+  have hl : (a.limits != b.limits) = (b.limits != a.limits) := bne_comm
+  unfold KV.inter
+  simp only []
+  rw [hl, hk]
+  have hm : ∀ kn : Rat, min (a.multSingle kn) (b.multSingle kn) = min (b.multSingle kn) (a.multSingle kn) :=
+    fun kn => Nat.min_comm _ _
+  simp only [hm]
+
+theorem indexOf?_isSome_of_mem (x : Rat) : ∀ (l : List Rat), x ∈ l → (indexOf? x l).isSome = true
+  | [], h => by simp at h
+  | y :: ys, h => by
+    simp only [indexOf?]
+    by_cases e : y = x
+    · simp [e]
+    · have : (y == x) = false := by simpa using e
+      simp only [this, Bool.false_eq_true, if_false, Option.isSome_map]
+      rcases List.mem_cons.mp h with h | h
+      · exact absurd h.symm e
+      · exact indexOf?_isSome_of_mem x ys h
+
+/-- **C17: `U | U = U`** (well-formed vector, separated knot values). -/
+theorem C17_union_idem (a : KV) (hwf : WF a.v a.deg) (hsep : Separated a.v) : a.union a = .ok a := by
+  have g : GoodKV a := goodKV_of_WF a.v a.deg hwf hsep
+  have hK : getUnique (a.knots ++ a.knots) = a.knots := by
+    apply sorted_nodup_ext _ _ (getUnique_sorted _) (knots_sorted a) (getUnique_nodup _) (knots_nodup a)
+    intro x
+    rw [getUnique_mem_iff (a.knots ++ a.knots) a.v
+      (fun y hy => by rw [List.mem_append] at hy; rcases hy with h | h <;> exact knots_subset a y h) hsep]
+    simp
+  unfold KV.union
+  simp only []
+  rw [hK, Nat.max_self]
+  have h1 : (a.limits != a.limits) = false := by simp
+  have h2 : ((a.v ++ a.v).all fun x => (indexOf? x a.knots).isSome) = true := by
+    rw [List.all_eq_true]
+    intro x hx
+    rw [List.mem_append] at hx
+    have hxv : x ∈ a.v := by rcases hx with h | h <;> exact h
+    exact indexOf?_isSome_of_mem x a.knots (mem_v_mem_knots a g hwf x hxv)
+  rw [h1, h2]
+  simp only [Bool.false_eq_true, if_false, Bool.not_true]
+  -- the rebuilt list is the vector itself
+  have hmult : ∀ kn ∈ a.knots, (max (if a.v.any (· == kn) then a.multSingle kn + a.deg - a.deg else 0)
+      (if a.v.any (· == kn) then a.multSingle kn + a.deg - a.deg else 0)) = cnt a.v kn := by
+    intro kn hkn
+    have hin : a.v.any (· == kn) = true := by
+      rw [List.any_eq_true]; exact ⟨kn, knots_subset a kn hkn, by simp⟩
+    rw [hin, Nat.max_self]
+    simp only [if_true, Nat.add_sub_cancel]
+    apply mult_spec
+    intro y hy
+    by_cases e : y = kn
+    · exact Or.inl e
+    · right
+      exact le_trans tol9_le_tol6 (hsep kn (knots_subset a kn hkn) y hy (fun c => e c.symm))
+  have hlist : isort (KV.replicateKnots a.knots (a.knots.map fun kn =>
+      max (if a.v.any (· == kn) then a.multSingle kn + a.deg - a.deg else 0)
+        (if a.v.any (· == kn) then a.multSingle kn + a.deg - a.deg else 0))) = a.v := by
+    apply sorted_eq_of_cnt _ _ (sortedLE_isort _) hwf.sorted
+    intro x
+    rw [cnt_isort]
+    by_cases hx : x ∈ a.knots
+    · obtain ⟨i, hi, rfl⟩ := List.mem_iff_getElem.mp hx
+      rw [cnt_replicateKnots _ _ (knots_nodup a) (by simp) i hi]
+      simp only [List.getElem_map]
+      exact hmult _ (List.getElem_mem hi)
+    · have h0 : cnt a.v x = 0 := by
+        apply cnt_eq_zero_of_forall_ne
+        intro y hy e
+        exact hx (e ▸ mem_v_mem_knots a g hwf y hy)
+      rw [h0]
+      apply cnt_eq_zero_of_forall_ne
+      intro y hy e
+      have := mem_replicateKnots _ _ y hy
+      exact hx (e ▸ this)
+  rw [hlist]
+  exact mk?_of_wf a hwf
+
+/-- **C17: `U & U = U`** (well-formed vector, separated knot values). -/
+theorem C17_inter_idem (a : KV) (hwf : WF a.v a.deg) (hsep : Separated a.v) : a.inter a = .ok a := by
+  have g : GoodKV a := goodKV_of_WF a.v a.deg hwf hsep
+  have hK : isort ((dedup a.knots).filter fun x => a.knots.any (· == x)) = a.knots := by
+    apply sorted_nodup_ext _ _ (sortedLE_isort _) (knots_sorted a)
+      (isort_nodup _ ((dedup_nodup _).sublist List.filter_sublist)) (knots_nodup a)
+    intro x
+    rw [mem_isort, List.mem_filter, mem_dedup]
+    simp only [List.any_eq_true, beq_iff_eq]
+    constructor
+    · exact fun h => h.1
+    · exact fun h => ⟨h, x, h, rfl⟩
+  unfold KV.inter
+  simp only []
+  rw [hK]
+  have h1 : (a.limits != a.limits) = false := by simp
+  rw [h1]
+  simp only [Bool.false_eq_true, if_false, Nat.min_self]
+  have hmult : ∀ kn ∈ a.knots, a.multSingle kn = cnt a.v kn := by
+    intro kn hkn
+    apply mult_spec
+    intro y hy
+    by_cases e : y = kn
+    · exact Or.inl e
+    · right
+      exact le_trans tol9_le_tol6 (hsep kn (knots_subset a kn hkn) y hy (fun c => e c.symm))
+  have hlist : isort (KV.replicateKnots a.knots (a.knots.map fun kn => a.multSingle kn)) = a.v := by
+    apply sorted_eq_of_cnt _ _ (sortedLE_isort _) hwf.sorted
+    intro x
+    rw [cnt_isort]
+    by_cases hx : x ∈ a.knots
+    · obtain ⟨i, hi, rfl⟩ := List.mem_iff_getElem.mp hx
+      rw [cnt_replicateKnots _ _ (knots_nodup a) (by simp) i hi]
+      simp only [List.getElem_map]
+      exact hmult _ (List.getElem_mem hi)
+    · have h0 : cnt a.v x = 0 := by
+        apply cnt_eq_zero_of_forall_ne
+        intro y hy e
+        exact hx (e ▸ mem_v_mem_knots a g hwf y hy)
+      rw [h0]
+      apply cnt_eq_zero_of_forall_ne
+      intro y hy e
+      have := mem_replicateKnots _ _ y hy
+      exact hx (e ▸ this)
+  rw [hlist]
+  exact mk?_of_wf a hwf
 
 end NV
